@@ -19,7 +19,7 @@ import ast
 from typing import Dict, Iterable, List, Optional, Set, Tuple
 
 from .cfg import cfg_of
-from .model import AnalysisError, Func, RepoModel, call_name, enclosing_map, norm, walk_no_nested
+from .model import AnalysisError, Func, RepoModel, call_name, canon_key, enclosing_map, norm, walk_no_nested
 
 GROW = ("append", "extend", "add", "update", "insert", "appendleft", "setdefault")
 EMPTY_CTORS = ("set", "list", "dict", "SimpleSet", "OrderedDict", "defaultdict", "deque")
@@ -98,7 +98,7 @@ def _guard_text(node, loop, enc) -> str:
     while id(cur) in enc and enc[id(cur)] is not loop:
         par = enc[id(cur)]
         if isinstance(par, ast.If):
-            t = norm(par.test)
+            t = " ".join(ast.unparse(par.test).split())
             return ("not (" + t + ")") if cur in par.orelse else t
         cur = par
     return "<unconditional>"
@@ -160,6 +160,7 @@ def check_accumulators(model: RepoModel, rep, RID: str, rels: Iterable[str], adj
                       "abandoned half-way (break / return inside the loop) nor re-bound inside the loop, except at the sites read and "
                       "frozen with a reason; " + what_is_lost, min_instances)
     used_adj: Set[str] = set()
+    adjudicated = {canon_key(k): v for k, v in adjudicated.items()}     # insensitive to local-variable names
     n_acc = 0
     for rel in rels:
         mod = model.module(rel)
@@ -197,7 +198,7 @@ def check_accumulators(model: RepoModel, rep, RID: str, rels: Iterable[str], adj
                         continue
                     g = _guard_text(x, L, enc)
                     kind = "break" if isinstance(x, ast.Break) else "return"
-                    key = f"{rel}::{f.qualname}::{a.name}::{kind} under `{g[:100]}`"
+                    key = f"{rel}::{f.qualname}::`{a.name}`::{kind} under `{g}`"
                     if key in seen_keys:
                         continue
                     seen_keys.add(key)
@@ -213,11 +214,11 @@ def check_accumulators(model: RepoModel, rep, RID: str, rels: Iterable[str], adj
                             cur = enc[id(cur)]
                             if isinstance(cur, ast.If):
                                 guards.append(" ".join(ast.unparse(cur.test).split()))
-                        if widening(x, guards, blk[:blk.index(x)] if x in blk else []):
+                        if widening(x, guards, blk[:blk.index(x)] if x in blk else [], f.node):
                             continue
-                    if key in adjudicated:
-                        used_adj.add(key)
-                        rep.info(RID, key, rel, x.lineno, "adjudicated: " + adjudicated[key])
+                    if canon_key(key) in adjudicated:
+                        used_adj.add(canon_key(key))
+                        rep.info(RID, key, rel, x.lineno, "adjudicated: " + adjudicated[canon_key(key)])
                         continue
                     problems += 1
                     rep.violation(RID, key, rel, x.lineno,
@@ -258,7 +259,7 @@ def check_accumulators(model: RepoModel, rep, RID: str, rels: Iterable[str], adj
                         reach = next(((st, n) for st, n in uses_after if cfg.path_avoiding(dn, n, avoid) is not None), None)
                         if reach is None:
                             continue
-                        key = f"{rel}::{f.qualname}::{a.name}::rebound `{norm(rb)[:80]}`"
+                        key = f"{rel}::{f.qualname}::`{a.name}`::rebound `{" ".join(ast.unparse(rb).split())}`"
                         if key in seen_keys:
                             continue
                         seen_keys.add(key)
@@ -268,11 +269,11 @@ def check_accumulators(model: RepoModel, rep, RID: str, rels: Iterable[str], adj
                         if widening is not None:
                             par = enc[id(rb)]
                             blk = next((b for b in (getattr(par, "body", None), getattr(par, "orelse", None)) if isinstance(b, list) and rb in b), [])
-                            if widening(rb, [], blk[:blk.index(rb) + 1] if rb in blk else [rb]):
+                            if widening(rb, [], blk[:blk.index(rb) + 1] if rb in blk else [rb], f.node):
                                 continue
-                        if key in adjudicated:
-                            used_adj.add(key)
-                            rep.info(RID, key, rel, rb.lineno, "adjudicated: " + adjudicated[key])
+                        if canon_key(key) in adjudicated:
+                            used_adj.add(canon_key(key))
+                            rep.info(RID, key, rel, rb.lineno, "adjudicated: " + adjudicated[canon_key(key)])
                             continue
                         problems += 1
                         rep.violation(RID, key, rel, rb.lineno,
